@@ -4,6 +4,7 @@ CONSTANTS
   Orders = {"queue_first", "signal_first"}
   Standbys = {TRUE, FALSE}
   TimerMays = {TRUE, FALSE}
+  LazyCaller = FALSE
   EagerCaller = TRUE
   EnvCancel = TRUE
   EnvDeadline = TRUE
